@@ -125,7 +125,7 @@ def run(ctx: Ctx):
                 'fragment i taken from the abstract cut. Non-trivial = inner fragment of a >= 3-fragment cut whose pair reproduced its data '
                 'lines; distinct by (document, cut set, separator, fragment).')
     ctx.assumptions = ['cuts are made before barline rows only (the property\'s domain)']
-    n = 45 if ctx.tier == 'quick' else 300
+    n = 45 if ctx.tier == 'quick' else 200
     i = 0
     for cs in cases(ctx, 'c07', n):
         pname, over = MC.PROFILES[i % len(MC.PROFILES)]
